@@ -31,6 +31,27 @@ Proof.
   - rewrite skipn_app_exact, IH, andb_true_r. apply count_okb_ok. exact Hc.
 Qed.
 
+Lemma take_while_firstn p : forall s n, (n <= take_while p s)%nat -> forallb p (firstn n s) = true /\ length (firstn n s) = n.
+Proof.
+  induction s as [|c s IH]; intros n Hn; cbn [take_while] in Hn.
+  - replace n with O by lia. split; reflexivity.
+  - destruct n as [|n]; [split; reflexivity|]. destruct (p c) eqn:E; [|lia].
+    destruct (IH n ltac:(lia)) as [H1 H2]. cbn [firstn forallb length]. rewrite E, H1, H2. split; reflexivity.
+Qed.
+
+(* ... and sound: the matcher decides its specification *)
+Theorem match_items_sound ct items : forall s, match_items ct items s = true -> lang ct items s.
+Proof.
+  induction items as [|it rest IH]; intros s H; cbn [match_items] in H.
+  - destruct s; [constructor|discriminate].
+  - apply existsb_exists in H as [n [Hn Hb]]. apply in_seq in Hn. apply andb_true_iff in Hb as [Hc Hr].
+    destruct (take_while_firstn (sem_cset ct (i_set it)) s n ltac:(lia)) as [Hall Hlen].
+    rewrite <- (firstn_skipn n s). constructor; [exact Hall|rewrite Hlen; apply count_okb_ok; exact Hc|apply IH; exact Hr].
+Qed.
+
+Corollary match_items_spec ct items s : match_items ct items s = true <-> lang ct items s.
+Proof. split; [apply match_items_sound|apply match_items_complete]. Qed.
+
 Lemma lang_app ct i1 i2 s1 s2 : lang ct i1 s1 -> lang ct i2 s2 -> lang ct (i1 ++ i2) (s1 ++ s2).
 Proof.
   induction 1 as [|it rest a b Ha Hc _ IH]; intro H2; [exact H2|].
@@ -64,13 +85,31 @@ Definition head_ok (regex : str) : Prop :=
   | c :: _ => (Z.eqb c 36 || Z.eqb c 41 || Z.eqb c 40 || Z.eqb c 42 || Z.eqb c 43 || Z.eqb c 63 || Z.eqb c 123) = false
   | [] => False
   end.
+(* ... the same, but an opening parenthesis (of an alternation) is allowed *)
+Definition head_ok' (regex : str) : Prop :=
+  match regex with
+  | c :: _ => (Z.eqb c 36 || Z.eqb c 41 || Z.eqb c 42 || Z.eqb c 43 || Z.eqb c 63 || Z.eqb c 123) = false
+  | [] => False
+  end.
 
+(* a basic atom (literal, escape, bracket, dot) *)
+Definition basic_ok (cs : cset) (regex : str) : Prop :=
+  (forall x, parse_basic (regex ++ x) = Some (cs, x)) /\ head_ok regex.
+(* any atom, alternations included *)
 Definition atom_ok (cs : cset) (regex : str) : Prop :=
-  (forall x, parse_atom (regex ++ x) = Some (cs, x)) /\ head_ok regex.
+  (forall x, parse_atom (regex ++ x) = Some (cs, x)) /\ head_ok' regex.
 
-Lemma head_ok_not_quant regex x : head_ok regex -> starts_quant (regex ++ x) = false.
+Lemma basic_atom cs regex : basic_ok cs regex -> atom_ok cs regex.
 Proof.
-  destruct regex as [|c regex]; [intros []|]. cbn [head_ok app starts_quant]. intro H.
+  intros [Hp Hh]. destruct regex as [|c regex]; [destruct Hh|]. cbn [head_ok] in Hh.
+  repeat (apply orb_false_iff in Hh as [Hh ?]). split.
+  - intro x. cbn [app parse_atom]. replace (Z.eqb c 40) with false by (symmetry; assumption). apply (Hp x).
+  - cbn [head_ok']. rewrite Hh. repeat (apply orb_false_iff; split); try assumption; reflexivity.
+Qed.
+
+Lemma head_ok_not_quant regex x : head_ok' regex -> starts_quant (regex ++ x) = false.
+Proof.
+  destruct regex as [|c regex]; [intros []|]. cbn [head_ok' app starts_quant]. intro H.
   repeat (apply orb_false_iff in H as [H ?]). repeat (apply orb_false_iff; split); assumption.
 Qed.
 
@@ -80,10 +119,9 @@ Lemma parse_seq_step fuel top cs regex tail m M r2 rest r3 : atom_ok cs regex ->
   parse_seq fuel top r2 = Some (rest, r3) ->
   parse_seq (S fuel) top (regex ++ tail) = Some ({| i_set := cs; i_min := m; i_max := M |} :: rest, r3).
 Proof.
-  intros [Ha Hh] Hq Hr. destruct regex as [|c regex]; [destruct Hh|]. cbn [head_ok] in Hh.
+  intros [Ha Hh] Hq Hr. destruct regex as [|c regex]; [destruct Hh|]. cbn [head_ok'] in Hh.
   repeat (apply orb_false_iff in Hh as [Hh ?]).
   cbn [parse_seq app]. rewrite Hh. replace (Z.eqb c 41) with false by (symmetry; assumption).
-  replace (Z.eqb c 40) with false by (symmetry; assumption).
   change (c :: regex ++ tail) with ((c :: regex) ++ tail). rewrite Ha, Hq, Hr. reflexivity.
 Qed.
 
@@ -180,28 +218,28 @@ Qed.
 Lemma forallb_memc (P : Z -> bool) l c : forallb P l = true -> memc c l = true -> P c = true.
 Proof. intros Hf Hm. apply memc_In in Hm. rewrite forallb_forall in Hf. apply Hf. exact Hm. Qed.
 
-Lemma not_meta_plain c : is_meta c = false -> atom_ok (CLit c) [c].
+Lemma not_meta_plain c : is_meta c = false -> basic_ok (CLit c) [c].
 Proof.
   intro Hm. unfold is_meta in Hm.
   assert (H92 : Z.eqb c 92 = false) by (apply (memc_false_neq c metas); [exact Hm|cbn; tauto]).
   assert (H91 : Z.eqb c 91 = false) by (apply (memc_false_neq c metas); [exact Hm|cbn; tauto]).
   assert (H46 : Z.eqb c 46 = false) by (apply (memc_false_neq c metas); [exact Hm|cbn; tauto]).
   split.
-  - intro x. cbn [app parse_atom]. rewrite H92, H91, H46. unfold is_meta. rewrite Hm. reflexivity.
+  - intro x. cbn [app parse_basic]. rewrite H92, H91, H46. unfold is_meta. rewrite Hm. reflexivity.
   - cbn [head_ok].
     rewrite (memc_false_neq c metas 36 Hm), (memc_false_neq c metas 41 Hm), (memc_false_neq c metas 40 Hm),
             (memc_false_neq c metas 42 Hm), (memc_false_neq c metas 43 Hm), (memc_false_neq c metas 63 Hm),
             (memc_false_neq c metas 123 Hm); cbn; tauto.
 Qed.
 
-Lemma escaped_special c : memc c re_specials = true -> atom_ok (CLit c) [92; c].
+Lemma escaped_special c : memc c re_specials = true -> basic_ok (CLit c) [92; c].
 Proof.
   intro Hs.
   pose proof (forallb_memc (fun k => negb (Z.eqb k 100) && negb (Z.eqb k 115) && negb (ascii_alnum k)) re_specials c
                 ltac:(vm_compute; reflexivity) Hs) as H.
   apply andb_true_iff in H as [H H3]. apply andb_true_iff in H as [H1 H2].
   apply negb_true_iff in H1. apply negb_true_iff in H2. apply negb_true_iff in H3.
-  split; [|reflexivity]. intro x. cbn [app parse_atom]. change (Z.eqb 92 92) with true. cbv iota.
+  split; [|reflexivity]. intro x. cbn [app parse_basic]. change (Z.eqb 92 92) with true. cbv iota.
   rewrite H1, H2, H3. reflexivity.
 Qed.
 
@@ -217,7 +255,7 @@ Proof.
   apply negb_true_iff in Hn. exact Hn.
 Qed.
 
-Theorem escape_char_atom full c : atom_ok (CLit c) (escape_char full c).
+Theorem escape_char_basic full c : basic_ok (CLit c) (escape_char full c).
 Proof.
   unfold escape_char, re_escape_char. destruct full.
   - destruct (memc c re_specials) eqn:E; [apply escaped_special; exact E|apply not_meta_plain, metas_are_special; exact E].
@@ -225,7 +263,7 @@ Proof.
     destruct (memc c re_specials) eqn:E; [apply escaped_special; exact E|apply not_meta_plain, metas_are_special; exact E].
 Qed.
 
-Lemma dot_atom : atom_ok CAny [46].
+Lemma dot_atom : basic_ok CAny [46].
 Proof. split; [|reflexivity]. intro x. reflexivity. Qed.
 
 (* ------------------------------------------------------------------ D. category classes (no extra letters) *)
@@ -236,7 +274,7 @@ Definition class_info (code : Z) : option (str * cset) :=
   end.
 
 Definition class_good (code : Z) : Prop :=
-  exists t cs, cat_re false [] code = Some t /\ atom_ok cs t /\
+  exists t cs, cat_re false [] code = Some t /\ basic_ok cs t /\
                forall ct c, sem_cset ct cs c = cat_sem ct false [] code c.
 
 Local Arguments Z.eqb : simpl nomatch.
@@ -409,7 +447,7 @@ Proof.
 Qed.
 
 Theorem bracket_atom chars : chars <> [] ->
-  atom_ok (CBr false (map BChar (bracket_order chars))) (escaped_bracket false chars).
+  basic_ok (CBr false (map BChar (bracket_order chars))) (escaped_bracket false chars).
 Proof.
   intro Hne. rewrite escaped_bracket_shape. cbv zeta.
   set (b93 := memc 93 chars). set (b92 := memc 92 chars). set (b94 := memc 94 chars). set (b45 := memc 45 chars).
@@ -430,7 +468,7 @@ Proof.
   replace (([91] ++ (if b93 then [93] else []) ++ mains ++ suffix_text b92 b94 esc b45 ++ [93]) ++ x)
     with (91 :: (if b93 then [93] else []) ++ mains ++ T)
     by (unfold T; cbn [app]; rewrite <- !app_assoc; reflexivity).
-  cbn [parse_atom]. change (Z.eqb 91 92) with false. change (Z.eqb 91 91) with true. cbv iota.
+  cbn [parse_basic]. change (Z.eqb 91 92) with false. change (Z.eqb 91 91) with true. cbv iota.
   destruct b93 eqn:E93.
   - (* ']' comes first *)
     cbn [app]. change (Z.eqb 93 94) with false. cbv iota. cbn [List.length parse_br]. change (Z.eqb 93 93) with true. cbv iota.
@@ -474,14 +512,13 @@ Proof.
   induction f as [|f IH]; intros top s r H k; [discriminate|]. cbn [Nat.add parse_seq] in *.
   destruct s as [|c s]; [discriminate|].
   destruct (Z.eqb c 36); [exact H|]. destruct (Z.eqb c 41); [exact H|].
-  destruct (Z.eqb c 40).
-  - destruct top; [|discriminate].
+  destruct (parse_atom (c :: s)) as [[cs r1]|].
+  - destruct (parse_quant r1) as [[[m M] r2]|]; [|discriminate].
+    destruct (parse_seq f top r2) as [[rest r3]|] eqn:E; [|discriminate]. rewrite (IH _ _ _ E k). exact H.
+  - destruct (Z.eqb c 40 && top); [|discriminate].
     destruct (parse_seq f false s) as [[inner r1]|] eqn:E1; [|discriminate]. rewrite (IH _ _ _ E1 k).
     destruct (starts_quant r1); [discriminate|].
     destruct (parse_seq f true r1) as [[rest r2]|] eqn:E2; [|discriminate]. rewrite (IH _ _ _ E2 k). exact H.
-  - destruct (parse_atom (c :: s)) as [[cs r1]|]; [|discriminate].
-    destruct (parse_quant r1) as [[[m M] r2]|]; [|discriminate].
-    destruct (parse_seq f top r2) as [[rest r3]|] eqn:E; [|discriminate]. rewrite (IH _ _ _ E k). exact H.
 Qed.
 
 Lemma parse_seq_ge f f' top s r : parse_seq f top s = Some r -> (f <= f')%nat -> parse_seq f' top s = Some r.
@@ -534,7 +571,7 @@ Proof.
   induction s as [|c s IH]; intros fuel rest irest rend Hsq Hr; [split; [exact Hr|exact Hsq]|].
   destruct (IH fuel rest irest rend Hsq Hr) as [IH1 IH2].
   unfold escape in *. cbn [flat_map List.length Nat.add map app]. rewrite <- app_assoc.
-  pose proof (escape_char_atom full c) as Hok. split.
+  pose proof (basic_atom _ _ (escape_char_basic full c)) as Hok. split.
   - eapply parse_seq_step; [exact Hok| |exact IH1].
     unfold parse_quant. destruct (flat_map (escape_char full) s ++ rest) as [|d r] eqn:E; [reflexivity|].
     cbn [starts_quant] in IH2. repeat (apply orb_false_iff in IH2 as [IH2 ?]).
@@ -578,7 +615,7 @@ Proof.
       injection Hp as <-. unfold escape. cbn [flat_map]. rewrite app_nil_r.
       exists (quant_items (CLit c) (escape_char full c) m M), (List.length (quant_items (CLit c) (escape_char full c) m M)).
       apply (single_part top {| f_atom := ALit [c]; f_min := m; f_max := M |} (CLit c) (escape_char full c) (Z.eqb c));
-        [apply escape_char_atom|apply quant_okb_ok; exact Hr|].
+        [apply basic_atom, escape_char_basic|apply quant_okb_ok; exact Hr|].
       intros ct s Hm. unfold frag_matches in Hm. cbn [f_atom atom_pred f_min f_max] in Hm. exact Hm.
     + (* a longer literal *)
       apply andb_true_iff in Hr as [H1 H2]. apply Z.eqb_eq in H1. unfold opt_Z_eqb in H2. destruct M as [M'|]; [|discriminate].
@@ -588,7 +625,7 @@ Proof.
       split; [|split; [|split]].
       * intros fuel rest irest rend Hsq H. apply (literal_part top full (c :: c2 :: s2)); assumption.
       * exact (escape_length full (c :: c2 :: s2)).
-      * intros rest Hsq. assert (Hok := escape_char_atom full c). unfold escape. cbn [flat_map]. rewrite <- app_assoc.
+      * intros rest Hsq. assert (Hok := basic_atom _ _ (escape_char_basic full c)). unfold escape. cbn [flat_map]. rewrite <- app_assoc.
         apply head_ok_not_quant. apply Hok.
       * intros ct s Hm. unfold frag_matches in Hm. cbn [f_atom atom_pred] in Hm. destruct Hm as [-> _]. apply lang_literal.
   - (* a raw character *)
@@ -596,12 +633,12 @@ Proof.
     destruct (Z.eqb_spec c 46) as [->|Hne].
     + exists (quant_items CAny [46] m M), (List.length (quant_items CAny [46] m M)).
       apply (single_part top {| f_atom := ARaw 46; f_min := m; f_max := M |} CAny [46] (fun _ => true));
-        [apply dot_atom|apply quant_okb_ok; exact Hq|].
+        [apply basic_atom, dot_atom|apply quant_okb_ok; exact Hq|].
       intros ct s Hm. unfold frag_matches in Hm. cbn [f_atom atom_pred f_min f_max] in Hm. destruct Hm as [H1 H2].
       split; [|exact H2]. cbn [sem_cset]. clear. induction s; [reflexivity|exact IHs].
     + cbn [orb] in Hc. apply negb_true_iff in Hc. exists (quant_items (CLit c) [c] m M), (List.length (quant_items (CLit c) [c] m M)).
       apply (single_part top {| f_atom := ARaw c; f_min := m; f_max := M |} (CLit c) [c] (Z.eqb c));
-        [apply not_meta_plain; exact Hc|apply quant_okb_ok; exact Hq|].
+        [apply basic_atom, not_meta_plain; exact Hc|apply quant_okb_ok; exact Hq|].
       intros ct s Hm. unfold frag_matches in Hm. cbn [f_atom atom_pred f_min f_max] in Hm. destruct Hm as [H1 H2].
       split; [|exact H2]. rewrite <- H1. apply forallb_ext_local. intro x. cbn [sem_cset]. unfold raw_sem.
       replace (Z.eqb c 46) with false by (symmetry; apply Z.eqb_neq; exact Hne). cbn [orb]. apply Z.eqb_sym.
@@ -610,7 +647,7 @@ Proof.
     pose proof (proj1 (Forall_forall _ _) class_codes_good code Hc) as (t & cs & Ht & Hok & Hsem).
     rewrite Ht in Hp. injection Hp as <-. exists (quant_items cs t m M), (List.length (quant_items cs t m M)).
     apply (single_part top {| f_atom := AClass code; f_min := m; f_max := M |} cs t (fun _ => true));
-      [exact Hok|apply quant_okb_ok; exact Hq|].
+      [apply basic_atom; exact Hok|apply quant_okb_ok; exact Hq|].
     intros ct s Hm. unfold frag_matches in Hm. cbn [f_atom atom_pred f_min f_max] in Hm. destruct Hm as [H1 H2].
     split; [|exact H2]. rewrite <- H1. apply forallb_ext_local. intro x. apply Hsem.
   - (* a bracket over a set of characters *)
@@ -619,18 +656,41 @@ Proof.
     exists (quant_items (CBr false (map BChar (bracket_order cs))) (escaped_bracket false cs) m M),
            (List.length (quant_items (CBr false (map BChar (bracket_order cs))) (escaped_bracket false cs) m M)).
     apply (single_part top {| f_atom := ABracket cs; f_min := m; f_max := M |} _ _ (fun _ => true));
-      [apply bracket_atom; exact Hne|apply quant_okb_ok; exact Hq|].
+      [apply basic_atom, bracket_atom; exact Hne|apply quant_okb_ok; exact Hq|].
     intros ct s Hm. unfold frag_matches in Hm. cbn [f_atom atom_pred f_min f_max] in Hm. destruct Hm as [H1 H2].
     split; [|exact H2]. rewrite <- H1. apply forallb_ext_local. intro x. cbn [sem_cset xorb].
     rewrite br_chars_sem, (memc_ext _ _ x (bracket_order_In cs)). destruct (memc x cs); reflexivity.
 Qed.
 
 Lemma parse_seq_group f body inner r1 rest r2 :
+  parse_atom (40 :: body) = None ->
   parse_seq f false body = Some (inner, r1) -> starts_quant r1 = false -> parse_seq f true r1 = Some (rest, r2) ->
   parse_seq (S f) true (40 :: body) = Some (inner ++ rest, r2).
 Proof.
-  intros H1 Hq H2. cbn [parse_seq]. change (Z.eqb 40 36) with false. change (Z.eqb 40 41) with false.
-  change (Z.eqb 40 40) with true. cbv iota. rewrite H1, Hq, H2. reflexivity.
+  intros Hn H1 Hq H2. cbn [parse_seq]. change (Z.eqb 40 36) with false. change (Z.eqb 40 41) with false. cbv iota.
+  rewrite Hn. change (Z.eqb 40 40) with true. cbn [andb]. rewrite H1, Hq, H2. reflexivity.
+Qed.
+
+(* '(' followed by a quantified atom and ')' is not an alternation *)
+Lemma wrapped_not_atom cs t m M rest : atom_ok cs t -> parse_atom (40 :: quantify t m M ++ 41 :: rest) = None.
+Proof.
+  intros [Ha Hh]. cbn [parse_atom]. change (Z.eqb 40 40) with true. cbv iota. unfold parse_alt.
+  destruct t as [|c0 t]; [destruct Hh|].
+  destruct (Z.eqb_spec c0 40) as [->|Hne].
+  - (* the atom is itself an alternation: not a basic atom *)
+    assert (Hq : exists y, quantify (40 :: t) m M ++ 41 :: rest = 40 :: y).
+    { unfold quantify. destruct M as [M'|]; repeat match goal with |- context [if ?b then _ else _] => destruct b end;
+        cbn [app]; eexists; reflexivity. }
+    destruct Hq as [y ->]. reflexivity.
+  - (* a basic atom followed by a quantifier, itself, or ')' : never '|' *)
+    assert (Hb : forall x, parse_basic ((c0 :: t) ++ x) = Some (cs, x)).
+    { intro x. specialize (Ha x). cbn [app parse_atom] in Ha. replace (Z.eqb c0 40) with false in Ha by (symmetry; apply Z.eqb_neq; exact Hne).
+      exact Ha. }
+    cbn [head_ok'] in Hh. repeat (apply orb_false_iff in Hh as [Hh ?]).
+    assert (H124 : Z.eqb c0 124 = false).
+    { destruct (Z.eqb_spec c0 124) as [->|]; [|reflexivity]. specialize (Hb []). cbn in Hb. discriminate. }
+    unfold quantify. destruct M as [M'|]; repeat match goal with |- context [if ?b then _ else _] => destruct b end;
+      rewrite <- ?app_assoc; rewrite Hb; cbn [app]; try rewrite H124; reflexivity.
 Qed.
 
 (* with capture groups: a category fragment is wrapped in ( ) *)
@@ -654,6 +714,12 @@ Proof.
       destruct t as [|c0 t]; [destruct Hh|]. cbn [head_ok] in Hh. repeat (apply orb_false_iff in Hh as [Hh ?]).
       unfold quantify. destruct M as [M'|]; repeat match goal with |- context [if ?b then _ else _] => destruct b end;
         cbn [app startswith]; rewrite (Z.eqb_sym 40 c0); replace (Z.eqb c0 40) with false by (symmetry; assumption); reflexivity. }
+    assert (Hatom : exists cs, atom_ok cs regex).
+    { unfold f_fixed in Hnf. destruct f as [a m M]. cbn [f_atom f_min f_max] in *. destruct a as [s|c|code|cs]; try discriminate.
+      unfold frag_renderable in Hr. cbn [f_atom] in Hr. apply andb_true_iff in Hr as [Hc _]. apply memc_In in Hc.
+      pose proof (proj1 (Forall_forall _ _) class_codes_good code Hc) as (t & cs & Ht & Hok & _).
+      cbn [atom_text] in Ea. rewrite Ht in Ea. injection Ea as <-. exists cs. apply basic_atom. exact Hok. }
+    destruct Hatom as [cs0 Hatom].
     unfold capture_group. rewrite Hsw. cbn [andb].
     exists its, (S (S k)). split; [|split; [|split]].
     + intros fuel rest irest rend Hsq Hrest. cbn [app]. rewrite <- app_assoc. cbn [app].
@@ -661,7 +727,8 @@ Proof.
       assert (Hin : parse_seq (k + (1 + fuel)) false (quantify regex (f_min f) (f_max f) ++ 41 :: rest) = Some (its ++ [], rest)).
       { apply Hparse; [reflexivity|]. cbn [Nat.add parse_seq]. reflexivity. }
       rewrite app_nil_r in Hin.
-      apply (parse_seq_group _ _ its rest irest rend Hin Hsq). apply (parse_seq_ge fuel); [exact Hrest|lia].
+      apply (parse_seq_group _ _ its rest irest rend (wrapped_not_atom cs0 regex _ _ rest Hatom) Hin Hsq).
+      apply (parse_seq_ge fuel); [exact Hrest|lia].
     + rewrite !app_length. cbn [List.length]. lia.
     + intros rest _. reflexivity.
     + exact Hsem.
@@ -704,7 +771,7 @@ Lemma ws_parses fuel rest irest rend : starts_quant rest = false -> parse_seq fu
   parse_seq (S fuel) true ([92; 115; 42] ++ rest) = Some (ws_item :: irest, rend).
 Proof.
   intros Hsq H. change ([92; 115; 42] ++ rest) with ([92; 115] ++ (42 :: rest)).
-  eapply parse_seq_step; [split; [intro x; reflexivity|reflexivity]| |exact H].
+  eapply parse_seq_step; [apply basic_atom; split; [intro x; reflexivity|reflexivity]| |exact H].
   unfold parse_quant. change (Z.eqb 42 42) with true. cbv iota. rewrite Hsq. reflexivity.
 Qed.
 
